@@ -322,6 +322,7 @@ class Body:
         self.vars = raw["vars"]
         self._calls = None
         self._defs = None
+        self._mutb = None
         self._succ = None
         self._pred = None
         self._dom = None
@@ -645,6 +646,17 @@ class Body:
                     pass
             self._defs = d
         return self._defs
+
+    @property
+    def mut_borrowed(self):
+        """Locals whose address is taken mutably (`&mut x`, also of a field of x)."""
+        if getattr(self, "_mutb", None) is None:
+            out = set()
+            for i, j, p, rv, line in self.assigns():
+                if rv[0] == "ref" and rv[1] is True and "*" not in [x for x in rv[2][1] if isinstance(x, str)]:
+                    out.add(rv[2][0])
+            self._mutb = out
+        return self._mutb
 
     def single_def(self, local):
         ds = [x for x in self.defs.get(local, ()) if x[0] in ("assign", "call")]
@@ -1292,6 +1304,10 @@ def describe_place(body, place, depth=0):
     base = None
     if not (1 <= local <= body.argc):
         d = body.single_def(local)
+        # a named variable that is borrowed mutably is state that changes behind the borrow (`flags.remove(..)`):
+        # its initialiser does not describe it
+        if d is not None and d[0] == "assign" and d[3][0] == "use" and d[3][1][0] == "k" and local in body.mut_borrowed and body.var_name(local):
+            d = None
         if d is not None:
             if d[0] == "assign":
                 base = describe_rvalue(body, d[3], depth + 1)
